@@ -163,10 +163,14 @@ def prop_text(case):
 def mutate_text(r, text, k):
     lines = text.split("\n")
     for _ in range(k):
-        m = r.randrange(10)
+        m = r.randrange(12)
         if not lines:
             lines = [""]
         i = r.randrange(len(lines))
+        groups = [j for j, x in enumerate(lines) if x[:2] in ("P\t", "O\t", "U\t")]
+        if groups and gen.chance(r, 0.15):
+            # list-valued records are where element counts matter: aim at them
+            i, m = gen.choice(r, groups), 10
         ln = lines[i]
         if m == 0 and ln:  # replace a character
             p = r.randrange(len(ln))
@@ -231,6 +235,27 @@ def mutate_text(r, text, k):
                 else:
                     f.append("ID:Z:" + ident)
                 ln = "\t".join(f)
+        elif m == 10:  # change the number of elements of a list field (path segments / overlaps, group items)
+            f = ln.split("\t")
+            cands = [j for j, x in enumerate(f) if j >= 2 and ("," in x or " " in x or f[0] in ("P", "O", "U"))]
+            if cands:
+                j = gen.choice(r, cands)
+                sep = "," if f[0] == "P" or "," in f[j] else " "
+                el = f[j].split(sep)
+                w = r.randrange(3)
+                if w == 0 and len(el) > 1:
+                    el.pop(r.randrange(len(el)))
+                elif w == 1:
+                    el.insert(r.randint(0, len(el)), gen.choice(r, el))
+                else:
+                    el = el[:1]
+                f[j] = sep.join(el)
+            ln = "\t".join(f)
+        elif m == 11:  # an odd identifier in the name field
+            f = ln.split("\t")
+            if len(f) > 1:
+                f[1] = gen.choice(r, ["²", "٣", "５", "*", "1", "A+", "", "00", "a b", "é"])
+            ln = "\t".join(f)
         else:  # replace a whole field by special content
             f = ln.split("\t")
             p = r.randrange(len(f))
@@ -269,7 +294,7 @@ def prop_mutant(case):
 
 
 def st_cfg(r):
-    return {"vlevel": r.randrange(4), "version": gen.choice(r, [None, None, "gfa1", "gfa2"]),
+    return {"vlevel": gen.choice(r, [0, 0, 0, 1, 1, 2, 3]), "version": gen.choice(r, [None, None, "gfa1", "gfa2"]),
             "dialect": gen.choice(r, [None, None, None, "rgfa"]), "entry": gen.choice(r, ["str", "list", "file"])}
 
 
